@@ -78,6 +78,8 @@ fn several(seed: u64, idx: u64) -> Out {
     }
     cfg.loops = loops.clone();
     cfg.loopacc = acc;
+    // the gradient scaling closure of loopback() must not show in the forward value
+    cfg.loopscale = (idx % 4) as usize;
     cfg.skipacc = ACCS[((idx / 7) % 5) as usize];
     out.key = cfg.describe();
     out.cover("several_grid", format!("{} {} loops {}", acc.name(), loops.len(), ["dense", "spatial", "spatial-flattened"][rep]));
@@ -219,6 +221,9 @@ impl Monitor for C17 {
         let (a, b) = *rng.pick(if cands.is_empty() { &ranges } else { &cands });
         cfg.loops = vec![(b, a, iters, inskips)];
         cfg.loopacc = acc;
+        // the gradient scaling closure of loopback() (1/x, 1, 1/sqrt(x), x) concerns the backward
+        // pass only: it must not show in the forward value
+        cfg.loopscale = ((idx / 3) % 4) as usize;
         // the accumulation configured for SKIP connections is independent of the loop: input
         // skips of a loop always add the original input of layer a
         cfg.skipacc = ACCS[((idx / 7) % 5) as usize];
